@@ -383,6 +383,15 @@ def check(run: Run):
     # the line cursor: model, then recorded operation sequences of the real class
     st = run_tlc(run, "MC_LineIter", "MC_LineIter.cfg", workers=4, timeout=300, coverage=True, tag="MC_LineIter")
     run.add_model(st)
+    if run.thorough():
+        # unbounded in the file length (symbolic integers): the cursor invariant is inductive
+        from ..tlc import run_apalache
+        apa = [run_apalache(run, "LineIterInd", init="Init", inv="IndInv", length=0, cinit="CInit"),
+               run_apalache(run, "LineIterInd", init="IndInit", inv="IndInv", length=1, cinit="CInit")]
+        run.notes["apalache"] = [{k: a[k] for k in ("name", "ok", "wall_s")} for a in apa]
+        for a in apa:
+            if a["violated"]:
+                run.violation("LineIter: the cursor invariant is not inductive (Apalache)", a["output"][-600:], {"apalache": a["output"]})
     ltraces = [t for t in lineiter_traces(run, rng) if t]
     lreached = validate_traces(run, "Trace_LineIter", ltraces, chunk=4000)
     for tr, r in zip(ltraces, lreached):
